@@ -21,14 +21,15 @@ RULE = ("Hypothesis: well-formed notes on 2 channels over 3-4 pitches (same pitc
         "case digest.")
 ASSUMPTIONS = ["inputs respect the library's tie convention (note-off before note-on of the same key on one tick)",
                "the trailing INTERNAL marker (total duration) is not an 'event' of the statement and is not checked"]
-TIERS = {"quick": dict(shards=8, examples=1500), "thorough": dict(size=2, shards=16, examples=25000)}
+TIERS = {"quick": dict(shards=8, examples=1500, alt_ppqn=[480], alt_shards=2),
+         "thorough": dict(size=2, shards=16, examples=25000, alt_ppqn=[480, 7, 1000], alt_shards=4)}
 
 STEP_POOL = [1, 2, 3, 4, 5, 6, 7, 8, 12, 16, 24, 48]
 
 
 @st.composite
 def _case(draw, size=1):
-    pitches = draw(st.sampled_from([(60, 61, 62), (60, 61, 62, 64), (60,), (60, 61)]))
+    pitches = draw(st.sampled_from([(60, 61, 62), (60, 61, 62, 64), (60,), (60, 61), (21, 108), (0, 127, 21, 108)]))
     notes = draw(gens.wellformed_notes(channels=(0, 1), pitches=pitches, max_notes=10 * size, max_len=60, max_gap=50,
                                        start_max=60))
     if draw(st.integers(0, 2)) == 0 and notes:
